@@ -239,6 +239,10 @@ def hostile_lines():
     return out
 
 
+SLOW_LABELS = ("empty", "utf8-bad-start", "not-json", "cmd-list", "input--1", "unlisted-path-pubkey",
+               "as-v5-v1-getPubKey", "adv-block-not-rlp")
+
+
 class C03(Check):
     id = "C03"
     level = "exploration"
@@ -277,6 +281,8 @@ class C03(Check):
         for i in range(0, len(self.hostile), 16):
             cs.append({"kind": "socket", "lo": i, "hi": min(i + 16, len(self.hostile))})
         cs.append({"kind": "hangups"})
+        for label in SLOW_LABELS:
+            cs.append({"kind": "slow", "label": label})
         return cs
 
     # ------------------------------------------------------------------
@@ -360,6 +366,8 @@ class C03(Check):
                 self.socket_hangup(case["label"], dict(self.hostile)[case["label"]], case["hangup"], stats, vs)
             else:
                 self.socket_line(case["label"], dict(self.hostile)[case["label"]], stats, vs)
+        elif k == "slow":
+            self.socket_slow(case, dict(self.hostile)[case["label"]], stats, vs)
         elif k == "hangups":
             N = {l: ln for l, ln in self.hostile}
             for label in ("empty", "utf8-bad-start", "not-json", "cmd-list", "input--1", "tx-empty-script",
@@ -369,6 +377,55 @@ class C03(Check):
                     for hang in ("before-send", "mid-line", "after-line"):
                         self.socket_hangup(label, N[label], hang, stats, vs)
         return vs
+
+    def socket_slow(self, case, line, stats, vs):
+        """a client that pauses in the middle of its line (time passes: a socket time-out the
+        manager may have set can run out), and one whose end is reset there; explored with one
+        deviation (a time-out firing, a preemption): the slow client still gets its one reply line,
+        and the next connection is served"""
+        from .. import vserver, vnet
+        from ..xplore import explore, run_once
+        full = line + b"\n"
+        cut = max(1, len(full) // 2)
+        follow = b'{"command": "version"}\n'
+        for mode in ("pause", "reset"):
+            frags = [full[:cut], full[cut:]] if mode == "pause" else [full[:cut], vnet.RESET]
+
+            def run(ctx, frags=frags):
+                dev, w, proto = self.fresh(False, False)
+                return vserver.run_server(proto, w, [frags, [follow]], ctx)
+
+            def check(ctx, obs, mode=mode):
+                net, info, crashed = obs
+                first = net.clients[0].conn.out if net.clients[0].conn is not None else None
+                second = net.clients[1].conn.out if net.clients[1].conn is not None else None
+                ok1 = True
+                if mode == "pause":
+                    ok1 = False
+                    if first is not None and first.endswith(b"\n") and first.count(b"\n") == 1:
+                        try:
+                            d = json.loads(first.decode())
+                            ok1 = isinstance(d, dict) and isinstance(d.get("errorcode"), int) \
+                                and not isinstance(d.get("errorcode"), bool)
+                        except Exception:   # noqa
+                            ok1 = False
+                taken = tuple(p[1].split("|")[0] for ch, p in zip(ctx.choices, ctx.points) if ch)
+                stats.observe(("slow", mode, case["label"], ok1, second is not None, taken), nontrivial=bool(taken))
+                if (net.sched.deadlock or net.sched.livelock or crashed or net.sched.errors
+                        or info["early_shutdown"] or not ok1
+                        or second != b'{"errorcode": 0, "version": 5}\n'):
+                    vs.append(Violation("C03", "C03:socket-slow-client-%s" % mode,
+                                        dict(case, mode=mode), list(ctx.choices),
+                                        {"first_reply": first, "second_reply": second, "crashed": crashed,
+                                         "deadlock": net.sched.deadlock, "errors": net.sched.errors[:2],
+                                         "early_shutdown": info["early_shutdown"], "deviations": taken},
+                                        "one reply line with an integer errorcode; the next connection is served",
+                                        "socket"))
+            if case.get("choices") is not None and case.get("mode") == mode:
+                ctx, obs = run_once(run, case["choices"])
+                check(ctx, obs)
+            elif case.get("choices") is None:
+                explore(run, check, stats, bound=1)
 
     def socket_hangup(self, label, line, hang, stats, vs):
         """a client that goes away (before sending, in the middle of its line, or without waiting
@@ -508,6 +565,8 @@ class C03(Check):
 
     def replay(self, case, choices):
         from ..xplore import Stats
+        if case.get("kind") == "slow" and choices is not None:
+            case = dict(case, choices=list(choices))
         return self.run_case(case, Stats())
 
 
